@@ -175,5 +175,17 @@ CLAIMS = {
     note="Partial. Trusted: sympy, math/NumPy shims. Floats are reals, angles in degrees. Not covered: replace_basic_cs (raises with the installed pandas on "
          "the unchanged tree), rbcoords, build_coords ordering logic; rbgeom_uset and formrbe3 only bounded.",
     technique="real functions executed on symbolic inputs (sympy trig/sqrt normal forms, exact special-position cases); orientation signs by continuity at a witness; bounded float oracle for the pandas-based functions"),
+ "C19": dict(
+    text="Proved with the real functions: psd.area (sympy) - for 3 break points x 2 columns with symbolic frequencies, levels and slopes, every column equals "
+         "the sum over segments of the integral of p1 (x/f1)^s dx, for generic slopes, for slopes exactly -1 (log branch) and mixed; psd.interp (interp1d under "
+         "contract) reproduces the specification at its own frequencies (log-log and linear) and equals p1 (f/f1)^s inside a segment; dsp.resample (lfilter "
+         "under contract, symbolic samples) returns ceil(n p/q) samples along the data axis with the other axes unchanged, reproduces constants exactly, "
+         "returns the positions t0 + k dt q/p, keeps the original samples when upsampling (each coefficient to 1e-13) and, for 1-D/2-D/3-D data along any axis "
+         "incl. negative axes, equals lane-wise 1-D resampling with the data axis restored; dsp._find_closest_times / _find_closest_previous_times (z3, every "
+         "path, symbolic ascending times, 1-4 old x 1-2 new) return the nearest sample with ties to the earlier one / the latest earlier sample. "
+         "psd.rescale band conservation, the |s+1|<1e-5 band of area, fixtime end to end and Lanczos accuracy: bounded float checks.",
+    note="Partial. Trusted: sympy, z3, shims, interp1d/lfilter contracts; Kaiser window and sinc taps numeric. Sizes fixed, values symbolic. Floats are reals. "
+         "numba variants of the nearest-sample kernels are not the ones running here.",
+    technique="real functions executed on symbolic inputs (sympy exp/log identities; linear-coefficient extraction); dynamic symbolic execution with z3 over all paths for the nearest-sample kernels; bounded float checks"),
 }
 NOT_APPLICABLE = {}
